@@ -79,15 +79,27 @@ def defs_of(fn):
     return out
 
 
-def errdrop_scan(rule, crate, fn_pred, markers, exceptions, what):
+def errdrop_scan(rule, crate, fn_pred, markers, exceptions, what, scope_gone=True):
     """R-ERRDROP: no non-cleanup Drop of an error-typed place, no discarding adaptor.
 
     `exceptions`: dict key-detail -> {"count": n, "reason": ...} keyed by
     "<fn path> | <kind>:<type>"; suppresses up to count instances.
     Returns number of propagation sites seen (Try::branch on error-typed results).
     """
-    used = {}
+    from .report import Pool
     prop_sites = 0
+    # only the entries of functions in this scan's scope can lend an allowance
+    scope = {f.path for f in crate.fns if fn_pred(f)}
+    every = {f.path for f in crate.fns}
+    pool = Pool({k: v for k, v in exceptions.items()
+                 if k.split(" | ", 1)[0] in scope or (scope_gone and k.split(" | ", 1)[0] not in every)},
+                getattr(crate, "config", "default"))
+
+    def ok_cb(fn, detail, line):
+        def on_ok(ent, moved):
+            rule.ok("%s | %s (table%s: %s)" % (fn.path, detail, " for %s, moved" % moved if moved else "", ent["reason"]), fn, line)
+        return on_ok
+
     for fn in crate.fns:
         if not fn_pred(fn):
             continue
@@ -99,16 +111,14 @@ def errdrop_scan(rule, crate, fn_pred, markers, exceptions, what):
                 ty = t["ty"]
                 if ty_mentions_error(ty, markers):
                     detail = "drop:%s" % ty
-                    k = "%s | %s" % (fn.path, detail)
-                    ex = exceptions.get(k)
-                    used[k] = used.get(k, 0) + 1
-                    if ex and used[k] <= ex["count"]:
-                        rule.ok("%s (table: %s)" % (k, ex["reason"]), fn, t.get("line"))
-                    else:
+
+                    def on_bad(fn=fn, ty=ty, detail=detail, t=t):
                         rule.violation(fn.path, detail,
                                        "%s: a value of type %s (which can hold %s) is dropped on a normal path "
                                        "instead of being propagated" % (fn.path, ty, what),
                                        fn.loc(t.get("line")))
+
+                    pool.site(fn.path, detail, ok_cb(fn, detail, t.get("line")), on_bad)
             elif t["k"] == "call":
                 names = facts.callee_names(t)
                 if "std::ops::Try::branch" in names:
@@ -120,16 +130,17 @@ def errdrop_scan(rule, crate, fn_pred, markers, exceptions, what):
                     if n in DISCARDING:
                         if t["arg_tys"] and ty_mentions_error(t["arg_tys"][0], markers):
                             detail = "%s:%s" % (DISCARDING[n], t["arg_tys"][0])
-                            k = "%s | %s" % (fn.path, detail)
-                            ex = exceptions.get(k)
-                            used[k] = used.get(k, 0) + 1
-                            if ex and used[k] <= ex["count"]:
-                                rule.ok("%s (table: %s)" % (k, ex["reason"]), fn, t.get("line"))
-                            else:
+
+                            def on_bad(fn=fn, n=n, detail=detail, t=t):
                                 rule.violation(fn.path, detail,
                                                "%s: %s discards a result that can hold %s" % (fn.path, DISCARDING[n], what),
                                                fn.loc(t.get("line")))
+
+                            pool.site(fn.path, detail, ok_cb(fn, detail, t.get("line")), on_bad)
                         break
+    pool.settle()
+    if pool.unused():
+        rule.note("reviewed constructs no longer present: %s" % sorted(pool.unused().items()))
     return prop_sites
 
 
@@ -184,3 +195,81 @@ def origin(fn, defs, op, depth=0):
 
 def field_names(pl):
     return [e.get("n") for e in pl["p"] if isinstance(e, dict) and "f" in e]
+
+
+def fields_of_type(crate, adt, pred):
+    """Names of the fields of struct `adt` whose type satisfies pred (fields are identified by role = type,
+    not by name, so that renaming a private field does not change a rule's verdict)."""
+    a = crate.adts.get(adt)
+    if not a or not a["variants"]:
+        return []
+    return [f["name"] for f in a["variants"][0]["fields"] if pred(f["ty"])]
+
+
+_FWD = {}
+
+
+def sink_forwarders(crate):
+    """Local helpers of print.rs that do nothing but forward their byte-slice argument to io::Write::write_all
+    (`fn put(w, bytes) -> io::Result<()> { w.write_all(bytes) }`): {path: 1-based index of the bytes parameter}.
+    The printer rules treat a call of such a helper as the write_all it performs."""
+    key = id(crate)
+    if key in _FWD:
+        return _FWD[key]
+    out = {}
+    for f in crate.fns:
+        if f.kind == "closure" or not f.file.endswith("print.rs"):
+            continue
+        calls = [(bi, t) for bi, t in f.calls() if not f.is_cleanup(bi)]
+        if len(calls) != 1 or "std::io::Write::write_all" not in facts.callee_names(calls[0][1]):
+            continue
+        if any(b["term"]["k"] == "switch" for bi, b in enumerate(f.blocks) if not f.is_cleanup(bi)):
+            continue
+        t = calls[0][1]
+        if len(t["args"]) < 2:
+            continue
+        o = origin(f, defs_of(f), t["args"][1])
+        if o["k"] == "param":
+            out[f.path] = o["l"]
+    _FWD[key] = out
+    return out
+
+
+def copy_of_param(fn, l, param):
+    """Is local l a copy / lossless integer widening of parameter `param` of fn?"""
+    if l == param:
+        return True
+    defs = defs_of(fn)
+    seen = 0
+    while seen < 5:
+        ds = defs.get(l, [])
+        if len(ds) != 1:
+            return False
+        if ds[0][1] == "term":
+            # `u64::from(radix)` / `radix.into()`: lossless integer widening from core::convert::num
+            t = ds[0][2]
+            c = t.get("callee", {})
+            if t.get("k") == "call" and c.get("method") in ("from", "into") and len(t["args"]) == 1 \
+                    and "convert::num" in (c.get("resolved_dp") or "") and place_local(t["args"][0]) is not None:
+                l = place_local(t["args"][0])
+                if l == param:
+                    return True
+                seen += 1
+                continue
+            return False
+        rv = ds[0][2]
+        if rv["k"] == "use" and rv["op"].get("c") in ("copy", "move") and not rv["op"]["pl"]["p"]:
+            l = rv["op"]["pl"]["l"]
+            if l == param:
+                return True
+            seen += 1
+            continue
+        # an integer conversion of the radix (`radix as u64`, `u64::from(radix)`): 2/8/10/16 survive every width
+        if rv["k"] == "cast" and rv.get("op", {}).get("c") in ("copy", "move") and not rv["op"]["pl"]["p"]:
+            l = rv["op"]["pl"]["l"]
+            if l == param:
+                return True
+            seen += 1
+            continue
+        return False
+    return False
